@@ -142,14 +142,23 @@ func c04e3Scenario(v c04e3Variant) func() *sched.Scenario {
 }
 
 func TestVerifC04E3(t *testing.T) {
-	explore.Main("C04", []explore.Part{c04e3Part(t)}, func(msg string) { t.Fatal(msg) })
+	explore.Main("C04", []explore.Part{c04e3Part(t), c04e3SendPart(t)}, func(msg string) { t.Fatal(msg) })
 }
 
 func c04e3Part(t *testing.T) explore.Part {
+	return c04e3GenericPart(t, "e3-receive-lockpoints", len(c04e3Variants),
+		func(i int) (string, func() *sched.Scenario) {
+			return c04e3Variants[i].Name, c04e3Scenario(c04e3Variants[i])
+		},
+		fmt.Sprintf("%d thread mixes on one real ReceiveStream with real stream and connection flow controllers (Read, Peek and Read that wait for more than has arrived, CancelRead, RESET_STREAM, RESET_STREAM_AT, FIN, window-update collection; 1000 bytes received beforehand, with or without FIN) with every mutex Lock and Unlock of receive_stream.go and internal/flowcontrol as a scheduler point (files import-rewritten to vsync from the working tree)", len(c04e3Variants)))
+}
+
+// c04e3GenericPart explores n thread mixes under lock-point preemption (bound 2, thorough 3).
+func c04e3GenericPart(t *testing.T, name string, n int, get func(i int) (string, func() *sched.Scenario), what string) explore.Part {
 	vsync.Hook = sched.Point
 	vsync.UnlockHook = sched.Point
-	part := explore.Part{
-		Name: "e3-receive-lockpoints",
+	return explore.Part{
+		Name: name,
 		Run: func(e explore.Env) *explore.Report {
 			rep := &explore.Report{Level: "exploration", Exhaustive: true}
 			bound := 2
@@ -157,22 +166,23 @@ func c04e3Part(t *testing.T) explore.Part {
 				bound = 3
 			}
 			outcomes := map[string]bool{}
-			for vi, v := range c04e3Variants {
-				explore.MarkCurrent(e, "e3-receive-lockpoints", c04e3Replay{Variant: vi})
-				r := sched.ExploreBounded(t, e, bound, 0, c04e3Scenario(v))
+			for vi := 0; vi < n; vi++ {
+				vname, mk := get(vi)
+				explore.MarkCurrent(e, name, c04e3Replay{Variant: vi})
+				r := sched.ExploreBounded(t, e, bound, 0, mk)
 				rep.Evaluations += r.Executions
 				rep.Transitions += r.Steps
 				for o := range r.Outcomes {
-					outcomes[v.Name+": "+o] = true
+					outcomes[vname+": "+o] = true
 				}
 				if r.Capped {
 					rep.Exhaustive = false
-					rep.Caps = append(rep.Caps, "deadline in "+v.Name)
+					rep.Caps = append(rep.Caps, "deadline in "+vname)
 				}
 				if r.Fail != nil {
 					rep.Violations = append(rep.Violations, explore.Violation{Key: r.Fail.Key, What: r.Fail.What, Replay: explore.JSON(c04e3Replay{vi, r.FailChoice}), Human: r.FailTrace})
 				}
-				rep.Samples = append(rep.Samples, fmt.Sprintf("%s: %d schedules", v.Name, r.Executions))
+				rep.Samples = append(rep.Samples, fmt.Sprintf("%s: %d schedules", vname, r.Executions))
 			}
 			explore.ClearCurrent(e)
 			for o := range outcomes {
@@ -181,7 +191,7 @@ func c04e3Part(t *testing.T) explore.Part {
 			rep.OutcomesN = int64(len(rep.Outcomes))
 			rep.States = rep.OutcomesN
 			rep.Traces = rep.Transitions
-			rep.Rule = fmt.Sprintf("%d thread mixes on one real ReceiveStream with real stream and connection flow controllers (Read, Peek and Read that wait for more than has arrived, CancelRead, RESET_STREAM, RESET_STREAM_AT, FIN, window-update collection; 1000 bytes received beforehand, with or without FIN) with every mutex Lock and Unlock of receive_stream.go and internal/flowcontrol as a scheduler point (files import-rewritten to vsync from the working tree): every schedule with at most %d preemptions", len(c04e3Variants), bound)
+			rep.Rule = fmt.Sprintf("%s: every schedule with at most %d preemptions", what, bound)
 			rep.Bound = fmt.Sprintf("preemption bound %d completed", bound)
 			return rep
 		},
@@ -190,12 +200,12 @@ func c04e3Part(t *testing.T) explore.Part {
 			if err := json.Unmarshal(raw, &rp); err != nil {
 				t.Fatal(err)
 			}
-			f, trace := sched.Replay(t, c04e3Scenario(c04e3Variants[rp.Variant]), rp.Choices)
+			_, mk := get(rp.Variant)
+			f, trace := sched.Replay(t, mk, rp.Choices)
 			if f == nil {
 				return nil
 			}
 			return &explore.Violation{Key: f.Key, What: f.What, Human: trace}
 		},
 	}
-	return part
 }
